@@ -384,6 +384,19 @@ class Gen(object):
 BIG = 1e5
 
 
+def rsv_variant():
+    """Variant switch (DESIGN 2.5): which object OperatorRightScalarMult.derivative builds in the current
+    source -- OperatorLeftScalarMult (False, the pinned code) or OperatorRightScalarMult (True, the proposed
+    repair for complex scalars).  Both are proved sound; anything else fails the correspondence."""
+    if 'rsv' not in _CACHE:
+        import odl
+        O = odl.operator.operator
+        X = odl.rn(1)
+        D = O.OperatorRightScalarMult(odl.ufunc_ops.square(X), 2.0).derivative(X.one())
+        _CACHE['rsv'] = isinstance(D, O.OperatorRightScalarMult)
+    return _CACHE['rsv']
+
+
 def _finite_small(xs):
     return all(math.isfinite(v) and abs(v) <= BIG for v in xs)
 
@@ -426,8 +439,8 @@ def run_case(op, x, d):
         allv += _floats_of(op)
     if not _finite_small(allv):
         return None
-    term = ('{| c_e := %s; c_x := %s; c_d := %s; c_lin := %s; c_val := %s; c_der := %s |}'
-            % (e, C.qs(vals(x)), C.qs(vals(d)), C.b(lin), C.qs(val), dterm))
+    term = ('{| c_e := %s; c_rsv := %s; c_x := %s; c_d := %s; c_lin := %s; c_val := %s; c_der := %s |}'
+            % (e, C.b(rsv_variant()), C.qs(vals(x)), C.qs(vals(d)), C.b(lin), C.qs(val), dterm))
     if not _nums_in(term):
         return None
     return term, {'op': repr(op)[:300], 'x': vals(x), 'd': vals(d), 'raised': raised}
